@@ -1,4 +1,6 @@
 """C36 Metrics exposition is always valid and faithful — spec/http/Metrics.tla"""
+import os
+
 import vf
 
 LEVEL = "model_checking"
@@ -28,6 +30,14 @@ def needs_escape(cps):
 
 def run(ctx):
     cfgs = ctx.pick(["Metrics_quick.cfg"], ["Metrics_gen.cfg"])
+    # layer 1 = the current code; VERIF_L1_VARIANT=RawLabelValues selects the pre-fix behaviour as layer 1 (old trees)
+    variant = os.environ.get("VERIF_L1_VARIANT", "fixed")
+    if variant != "fixed":
+        for cfg in cfgs + ["TraceMetrics.cfg"]:
+            f = ctx.specdir() + "/" + cfg
+            txt = open(f).read().replace('L1Variant = "fixed"', 'L1Variant = "%s"' % variant)
+            open(f, "w").write(txt)
+    ctx.set("layer1_variant", variant)
     cases, ptests = [], []
     for cfg in cfgs:
         r = vf.mc(ctx, "Metrics", cfg, workers=min(vf.NCPU, 8), timeout=900, java_opts=["-Xmx6g"])
@@ -85,7 +95,7 @@ def run(ctx):
         recs.append({"status": o["status"], "parseOK": o["parse"]["parseOK"], "dup": o["parse"]["dup"], "ents": ents,
                      "samples": smp, "nofilter": c["filter"] == "none"})
 
-    bad, drift_missing, drift_l1 = [], 0, 0
+    bad, drift_missing, drift_l1, devof = [], 0, 0, {}
     chunk = 1500
     for i in range(0, len(recs), chunk):
         vf.write_ndjson(ctx.specdir() + "/C36_trace.ndjson", recs[i:i + chunk])
@@ -93,6 +103,7 @@ def run(ctx):
         for b in tv.tagged("BAD"):
             for mon in b["monitors"]:
                 bad.append((cases[i + b["l"] - 1], mon, b["bad"]))
+                devof[(cases[i + b["l"] - 1]["id"], mon)] = b["deviation"]
         for d in tv.tagged("DRIFT"):
             if d["what"] == "missing":
                 drift_missing += 1
@@ -130,7 +141,9 @@ def run(ctx):
         if not keys:
             keys = [(mon, "+".join(classes_of(c)), c)]
         for (m, k, ex) in keys:
-            g = groups.setdefault((m, k), {"n": 0, "ex": ex, "focuses": set(), "badidx": None})
+            g = groups.setdefault((m, k), {"n": 0, "ex": ex, "focuses": set(), "badidx": None, "devs": set()})
+            if k != "(any string)":
+                g["devs"].add(devof[(c["id"], mon)])
             g["n"] += 1
             g["focuses"].add(c["focus"])
             if ex is c and g["badidx"] is None:
@@ -155,7 +168,9 @@ def run(ctx):
                       % (x["ln"], x["name"], ",".join("%s=%r" % (lb["k"], s(lb["v"])) for lb in x["labels"]), x["valTxt"],
                          x["kind"], "; ".join("{%s}" % ",".join("%s=%r" % (a["k"], s(a["v"])) for a in e["attrs"])
                                               for e in ex["ents"] if e["kind"] == x["kind"])))
-        ctx.violation({"monitor": mon, "class": cls, "cause": cause},
+        dev = "+".join(sorted(g["devs"] - {"none"})) or "none"
+        cause += "; named deviation: " + dev
+        ctx.violation({"monitor": mon, "class": cls, "cause": cause.split(";")[0], "deviation": dev},
                       "monitor %s fails when a path name / session path is of class %s (%d answers; populated kinds: %s) "
                       "[cause: %s]; minimal scenario: %s populated with %d entity(ies) per kind, string %r, query filter %s -> %s"
                       % (mon, cls, g["n"], ",".join(sorted(g["focuses"])), cause, ex["focus"], ex["n"],
@@ -173,7 +188,7 @@ def run(ctx):
     if drift_missing:
         ctx.note("%d unfiltered answers lack the presence sample of an entity — DRIFT (completeness is not in the statement)" % drift_missing)
     if drift_l1:
-        ctx.note("%d answers whose fate differs from layer 1 (unescaped label values) — DRIFT, not a verdict" % drift_l1)
+        ctx.note("%d answers whose fate differs from layer 1 (label values escaped, or the selected deviation) — DRIFT, not a verdict" % drift_l1)
     okc = [c for c in cases if c["focus"] == "all" and c["n"] == 2 and not c["l1broken"]]
     if okc:
         c = okc[len(okc) // 2]
